@@ -319,3 +319,8 @@ def run(repo: Repo, rep: Report, tier: str) -> None:
     rep.rule("C16-R7", "inside a function inlined from a loop body a parameter named like the iterator wins: name resolvers consult the parameter environment before outer names (shared with C06-R5/C15-R5)")
     from .shared import identifier_resolvers as _idres
     _idres(repo, rep, "C16-R7")
+
+    # ---------------- R8 ---------------------------------------------------------------
+    from .shared import borrow as _borrow16
+    _borrow16(repo, rep, "C15", "C15-R9", "C16-R8", "the iterator keeps its value across a call made in the loop body: the lowerer's name tables are put back from a snapshot after a "
+              "function body, so a callee-local named like the iterator cannot replace it", floor=2)
